@@ -152,7 +152,13 @@ func (s *socket) Construct(id string, server BaseServer, transport transports.Tr
 
 // Called upon transport considered open.
 func (s *socket) onOpen() {
-	s.SetReadyState("open")
+	// only a session that is still opening becomes open: its transport listeners are
+	// already attached, so a close cause may have closed it meanwhile, and a closed
+	// session must never be reopened
+	if !s.readyState.CompareAndSwap("opening", "open") {
+		return
+	}
+	socket_log.Debug("readyState updated from %s to %s", "opening", "open")
 
 	// sends an `open` packet
 	s.Transport().SetSid(s.id)
